@@ -385,6 +385,9 @@ def check_rules(ctx):
 
 
 def run(ctx):
+    from ..lints import check_caches
+
+    check_caches(ctx, "C18-D5 caches", ['decompositions._decomposition', 'decompositions._orquestra_decompositions'])
     check_chaining(ctx)
     check_width_carried(ctx, R2, ctx.repo.func(f"{ORQ}:decompose_orquestra_circuit"), ["circuit.n_qubits", "circuit._n_qubits"])
     fi = ctx.repo.func(f"{ORQ}:decompose_orquestra_circuit")
